@@ -482,7 +482,7 @@ impl LockManager {
         let timeout_ms = self.default_timeout.as_millis() as u64;
 
         for key in keys {
-            locks.insert(
+            let previous = locks.insert(
                 key.clone(),
                 KeyLock {
                     key: key.clone(),
@@ -492,6 +492,15 @@ impl LockManager {
                     timeout_ms,
                 },
             );
+            // Taking over an expired lock of another transaction: that
+            // transaction no longer owns the key, so forget it there too.
+            if let Some(prev) = previous {
+                if prev.tx_id != tx_id {
+                    if let Some(prev_keys) = tx_locks.get_mut(&prev.tx_id) {
+                        prev_keys.retain(|k| k != key);
+                    }
+                }
+            }
         }
 
         tx_locks
@@ -733,8 +742,9 @@ impl LockManager {
         #[allow(clippy::cast_possible_truncation)]
         let timeout_ms = self.default_timeout.as_millis() as u64;
 
+        let mut expired_owners: Vec<u64> = Vec::new();
         for key in keys {
-            locks.insert(
+            let previous = locks.insert(
                 key.clone(),
                 KeyLock {
                     key: key.clone(),
@@ -744,6 +754,16 @@ impl LockManager {
                     timeout_ms,
                 },
             );
+            // Taking over an expired lock of another transaction: that
+            // transaction no longer owns the key, so forget it there too.
+            if let Some(prev) = previous {
+                if prev.tx_id != tx_id {
+                    if let Some(prev_keys) = tx_locks.get_mut(&prev.tx_id) {
+                        prev_keys.retain(|k| k != key);
+                    }
+                    expired_owners.push(prev.tx_id);
+                }
+            }
         }
 
         tx_locks
@@ -753,6 +773,14 @@ impl LockManager {
 
         // Remove from wait graph WHILE holding locks for consistency
         wait_graph.remove_transaction(tx_id);
+
+        // A transaction whose last lock expired and was just taken over has
+        // timed out exactly as if the expiry sweep had found it.
+        for owner in expired_owners {
+            if tx_locks.get(&owner).map_or(true, Vec::is_empty) {
+                wait_graph.remove_transaction(owner);
+            }
+        }
 
         drop(tx_locks);
         drop(locks);
